@@ -5,7 +5,7 @@
 out=$1; sid=$2; prop=$3; demopkg=$4; shift 4
 export GOFLAGS=-mod=mod GOPROXY=off GOSUMDB=off
 wt=/tmp/wt-sens
-cd $wt && git checkout -q -- . && git clean -fdq
+cd $wt && git checkout -q -- . && git clean -fdq && git checkout -q --detach $(git -C /repo rev-parse HEAD)
 demo=$(ls $out/*_test.go | head -1)
 res="{}"
 # without patch: demo passes
